@@ -47,6 +47,8 @@ THEOREMS = [
     "SleapVerif.C11.centroid_missing_iff",
     "SleapVerif.C11.ds_missing_iff_label",
     "SleapVerif.C11.len_eq_labelled",
+    "SleapVerif.C11.sample_provenance",
+    "SleapVerif.C11.config_flag_irrelevant",
     "SleapVerif.C11.chunks_written_independent_of_directory",
     "SleapVerif.C11.chunks_keep_counterexample",
     "SleapVerif.C11.present_multi_channel_nonzero",
@@ -72,7 +74,7 @@ THEOREMS = [
 
 SIG = "nan_anchor_written_through_view"
 KINDS = ["bottomup", "single", "centroid", "centered"]
-VIDEO_HW = [(96, 128), (48, 64)]          # two synthetic videos cut from the shipped frame
+VIDEO_HW = [(96, 128), (48, 64), (96, 128)]   # synthetic videos cut from the shipped frame (each with its own content)
 MAX_HW = [(None, None), (None, None), (96, 128), (120, 160), (192, 256), (96, 160), (144, 160), (48, 64)]
 PT_KEYS = {"instances": "instances", "centroids": "centroids", "instance": "instance",
            "centroid": "centroid", "instance_bbox": "bbox"}
@@ -204,10 +206,15 @@ def gen_labels_spec(rng):
     half_nan = rng.random() < 0.12       # some labelled nodes carry one NaN coordinate (visible=True)
     ill = rng.random() < 0.04            # ill-flagged: a node flagged visible with NaN stored (outside the property's domain)
     two_videos = rng.random() < 0.3
+    shared = rng.random() < 0.25          # 2-3 videos embedded in one file: equal `filename`, different content
+    n_videos = rng.choice([2, 3]) if shared else (2 if two_videos else 1)
+    n_frames = max(n_frames, n_videos) if shared else n_frames
     used = set()
     frames = []
     for _ in range(n_frames):
-        vi = rng.randrange(2) if two_videos else 0
+        vi = rng.randrange(n_videos)
+        if shared and len(frames) < n_videos:
+            vi = n_videos - 1 - len(frames)       # every video is used, the later ones first
         fi = rng.choice([i for i in range(4) if (vi, i) not in used])
         used.add((vi, fi))
         n_inst = rng.choice([0, 1, 1, 2, 2, 3, 4])
@@ -239,7 +246,7 @@ def gen_labels_spec(rng):
                     raw.append([None, None, False])
             insts.append({"kind": kind, "pts": pts, "raw": raw})
         frames.append({"frame_idx": fi, "video_idx": vi, "insts": insts})
-    return {"n_nodes": n_nodes, "n_videos": 2 if two_videos else 1, "frames": frames,
+    return {"n_nodes": n_nodes, "n_videos": n_videos, "shared_filename": shared, "frames": frames,
             "ill_flagged": any(p[2] and p[0] is None and p[1] is None for f in frames for i in f["insts"] for p in i["raw"])}
 
 
@@ -263,7 +270,9 @@ def gen_cfg(rng, spec, kind=None):
             "scale": rng.choice([1.0, 1.0, 0.5, 0.25]), "anchor": anchor,
             "crop_hw": list(rng.choice([(32, 32), (48, 64), (100, 100), (17, 24)])),
             "max_stride": rng.choice([1, 16, 32]), "np_chunks": rng.random() < 0.2,
-            "aug": rng.random() < 0.12, "is_rgb": rng.random() < 0.2}
+            "aug": rng.random() < 0.12, "is_rgb": rng.random() < 0.2,
+            # data_config.use_augmentations_train: the trainer hands the TRAINING config to every dataset
+            "cfg_aug_flag": rng.random() < 0.5}
 
 
 def raw_of(inst):
@@ -278,6 +287,7 @@ def ds_line(variant, spec, cfg, seq):
            str(-1 if mh is None else mh), str(-1 if mw is None else mw),
            str(-1 if ch is None else ch), str(-1 if cw is None else cw), rat(cfg["scale"]),
            str(-1 if cfg["anchor"] is None else cfg["anchor"]), str(cfg["crop_hw"][0]), str(cfg["crop_hw"][1]),
+           "1" if cfg.get("aug") else "0", "1" if cfg.get("cfg_aug_flag") else "0",
            str(len(spec["frames"]))]
     for f in spec["frames"]:
         H, W = VIDEO_HW[f["video_idx"]]
@@ -329,14 +339,24 @@ class World:
         self.base = base
         self.skel2 = base.skeletons[0]
         img = base[0].image[..., 0]
-        self.files = []
+        import h5py
+
+        self.files, self.frames = [], []
         for vi, (H, W) in enumerate(VIDEO_HW):
-            fns = []
+            fns, arrs = [], []
             for k in range(4):
                 fn = os.path.join(tmp, f"v{vi}_f{k}.png")
-                Image.fromarray(np.ascontiguousarray(np.roll(img[120:120 + H, 60:60 + W], 5 * k, axis=1))).save(fn)
+                arr = np.ascontiguousarray(np.roll(img[120:120 + H, 60:60 + W], 5 * k + 23 * vi, axis=1))
+                Image.fromarray(arr).save(fn)
                 fns.append(fn)
+                arrs.append(arr)
             self.files.append(fns)
+            self.frames.append(arrs)
+        # the same videos as embedded datasets of ONE file: every Video then has the same `filename`
+        self.container = os.path.join(tmp, "multi_video.pkg.slp")
+        with h5py.File(self.container, "w") as h5:
+            for vi, arrs in enumerate(self.frames):
+                h5.create_dataset(f"video{vi}/video", data=np.stack(arrs)[..., None])
         self.skels = {2: self.skel2}
         for n in (3, 4):
             names = [f"n{i}" for i in range(n)]
@@ -345,7 +365,12 @@ class World:
     def labels(self, spec):
         sio, np = self.sio, self.np
         skel = self.skels[spec["n_nodes"]]
-        videos = [sio.Video.from_filename(self.files[v], grayscale=True) for v in range(spec["n_videos"])]
+        if spec.get("shared_filename"):
+            videos = [sio.Video.from_filename(self.container, dataset=f"video{v}/video", grayscale=True)
+                      for v in range(spec["n_videos"])]
+            assert all(v.filename == videos[0].filename for v in videos)
+        else:
+            videos = [sio.Video.from_filename(self.files[v], grayscale=True) for v in range(spec["n_videos"])]
         lfs = []
         for f in spec["frames"]:
             insts = []
@@ -372,9 +397,9 @@ class World:
 AUG_CONFIG = {
     "intensity": {"uniform_noise_p": 1.0, "gaussian_noise_p": 1.0, "contrast_p": 1.0, "brightness": (0.9, 1.1),
                   "brightness_p": 1.0},
-    "geometric": {"rotation": 15.0, "scale": (0.9, 1.1), "translate_width": 0.1, "translate_height": 0.1,
+    "geometric": {"rotation": 60.0, "scale": (0.6, 1.4), "translate_width": 0.25, "translate_height": 0.25,
                   "affine_p": 1.0, "erase_p": 1.0},
-}
+}   # large ranges: an augmentation that is applied cannot be mistaken for the identity
 
 
 def make_dataset(labels, cfg, chunk_dir=None, use_existing=False):
@@ -386,8 +411,11 @@ def make_dataset(labels, cfg, chunk_dir=None, use_existing=False):
     ch, cw = cfg.get("cfg_max_hw", [None, None])
     if ch is not None or cw is not None or cfg.get("cfg_keys_present"):
         pre["max_height"], pre["max_width"] = ch, cw
+    # the augmentation settings are ALWAYS present in the config (as in a training config); whether they are
+    # applied is the constructor argument `apply_aug` alone, whatever `use_augmentations_train` says
     dc = OmegaConf.create({"user_instances_only": cfg["user_only"], "preprocessing": pre,
-                           "augmentation_config": AUG_CONFIG if cfg.get("aug") else None})
+                           "use_augmentations_train": bool(cfg.get("cfg_aug_flag")),
+                           "augmentation_config": AUG_CONFIG})
     hc = OmegaConf.create({"sigma": CM_SIGMA, "output_stride": CM_STRIDE, "anchor_part": cfg["anchor"]})
     common = dict(labels=labels, data_config=dc, max_stride=cfg["max_stride"], scale=cfg["scale"],
                   apply_aug=bool(cfg.get("aug")), max_hw=tuple(cfg["max_hw"]))
@@ -582,6 +610,39 @@ def oracle_sample(spec, cfg, row, s, aug=False):
                 if all(pmiss(i["pts"][n]) for i in insts) and float(cm[n].abs().max()) != 0.0:
                     bad.append(f"confidence map of node {n} (missing in every instance) is not zero")
     return ("; ".join(bad[:4]) if bad else None), facts
+
+
+def provenance(world, spec, cfg, f, s, ds, labels, aug):
+    """A sample carries the identity of the labelled frame its keypoints come from:
+    `labels.videos[video_idx]` is the very Video object of that frame, `(video_idx, frame_idx)`
+    locates that frame among the labelled frames, `orig_size` is that video's size, and (where the
+    image is not resampled) the pixels are that video's frame."""
+    import torch
+
+    k = next(j for j, g in enumerate(spec["frames"]) if g is f)
+    lf = labels[k]
+    vidx, fidx = int(s["video_idx"]), int(s["frame_idx"])
+    bad = []
+    if fidx != f["frame_idx"] or fidx != lf.frame_idx:
+        bad.append(f"frame_idx {fidx} but the keypoints are those of frame {f['frame_idx']}")
+    if not (0 <= vidx < len(ds.labels.videos)) or ds.labels.videos[vidx] is not lf.video:
+        bad.append(f"video_idx {vidx} is not the video of the source frame (video {f['video_idx']} of {spec['n_videos']}"
+                   + (", all sharing one filename" if spec.get("shared_filename") else "") + ")")
+    else:
+        hit = [g for g in spec["frames"] if (g["video_idx"], g["frame_idx"]) == (vidx, fidx)]
+        if len(hit) != 1 or hit[0] is not f:
+            bad.append(f"(video_idx, frame_idx) = ({vidx}, {fidx}) does not locate the labelled frame the keypoints come from")
+    if [int(x) for x in s["orig_size"].tolist()] != list(VIDEO_HW[f["video_idx"]]):
+        bad.append(f"orig_size {s['orig_size'].tolist()} is not the size of the source video")
+    H, W = VIDEO_HW[f["video_idx"]]
+    mh = cfg.get("cfg_max_hw", [None, None])[0] or cfg["max_hw"][0] or H
+    mw = cfg.get("cfg_max_hw", [None, None])[1] or cfg["max_hw"][1] or W
+    if not aug and cfg["kind"] != "centered" and cfg["scale"] == 1.0 and (mh, mw) == (H, W) and "image" in s:
+        px = torch.round(s["image"][0, 0, :H, :W] * 255).to(torch.uint8)
+        src = torch.from_numpy(world.frames[f["video_idx"]][f["frame_idx"]])
+        if not bool((px == src).all()):
+            bad.append("the image is not the source frame of the video the keypoints belong to")
+    return "; ".join(bad) if bad else None
 
 
 def poke_sample(s, cfg):
@@ -788,6 +849,9 @@ def _run_dataset_case(chk, world, case, m_rep, m_asis, labels, before, chunk_dir
             facts_all["invented_nodes"] |= facts["invented_nodes"]
             if why:
                 fails.append(f"ds[{i}]" + (" (augmentation on)" if augm else "") + f": {why}")
+            why = provenance(world, spec, cfg, rows[i][0], s, ds, labels, augm)
+            if why:
+                fails.append(f"ds[{i}] provenance: {why}")
         if case.get("poke"):          # functional-API calls on the returned tensors, between reads
             why = poke_sample(s, cfg)
             if why:
@@ -864,6 +928,9 @@ def _run_dataset_case(chk, world, case, m_rep, m_asis, labels, before, chunk_dir
         pmiss(i["pts"][cfg["anchor"]]) and nonempty(i) for f in spec["frames"] for i in filtered(f, cfg["user_only"]))
     tags = [cfg["kind"], "user_only" if cfg["user_only"] else "all_instances", f"scale{cfg['scale']}",
             "anchor_none" if cfg["anchor"] is None else "anchor_set"] + (["anchor_missing_somewhere"] if anchor_holes else [])
+    tags += [f"apply_aug={int(augm)}/use_augmentations_train={int(bool(cfg.get('cfg_aug_flag')))}:" + cfg["kind"]]
+    if spec.get("shared_filename"):
+        tags.append(f"{spec['n_videos']}_videos_sharing_one_filename:" + cfg["kind"])
     tags += ["np_chunks" if npc else "in_memory_cache"] + (["apply_aug"] if augm else []) + (["ill_flagged_labels"] if ill else []) \
         + (["is_rgb"] if cfg.get("is_rgb") else []) + (["poke_returned_sample"] if case.get("poke") else [])
     if any((p[0] is None) != (p[1] is None) for f in spec["frames"] for i in f["insts"] for p in i["pts"]):
@@ -1278,6 +1345,15 @@ def main(chk: Check):
             cfg = {"kind": kind, "user_only": True, "max_hw": [None, None], "scale": 1.0, "anchor": 1,
                    "crop_hw": [32, 32], "max_stride": 16}
             ds_cases.append({"spec": spec, "cfg": cfg, "seq": [0, 1, 0, 0, 1, 7], "bystander": True, "pre_helpers": True})
+            # validation dataset as ModelTrainer builds it: apply_aug=False, TRAINING data_config (flag True)
+            ds_cases.append({"spec": spec, "cfg": dict(cfg, cfg_aug_flag=True), "seq": [0, 0, 1, 0]})
+            # three embedded videos of one file (equal filename), labelled frames in the later videos
+            mv = {"n_nodes": 2, "n_videos": 3, "shared_filename": True, "frames": [
+                {"frame_idx": 2, "video_idx": 2, "insts": [{"kind": "user", "pts": [[20.0, 30.5], [41.25, 52.0]]}]},
+                {"frame_idx": 1, "video_idx": 1, "insts": [{"kind": "user", "pts": [[10.0, 12.0], [30.5, 20.25]]},
+                                                           {"kind": "user", "pts": [[40.0, 33.0], [22.0, 8.5]]}]},
+                {"frame_idx": 2, "video_idx": 0, "insts": [{"kind": "user", "pts": [[60.0, 70.5], [None, None]]}]}]}
+            ds_cases.append({"spec": mv, "cfg": dict(cfg, anchor=0), "seq": [0, 1, 2, 0, 1, 2]})
             if kind != "single":      # every run: write into a directory that holds another dataset's chunks
                 ds_cases.append({"spec": spec, "cfg": dict(cfg, np_chunks=True), "seq": [0, 0], "stale": True})
         for _ in range(chk.n(900, 8000)):
